@@ -12,6 +12,13 @@
 // Any statement or expression shape outside the supported subset is a hard failure (exit 1):
 // nothing is skipped silently.
 //
+// Supported subset: integer/bool/byte-slice/fixed-array values, struct receivers (the fields used
+// become parameters), pointer-to-integer receivers and parameters, := / = / op= / ++ / x[i] = v,
+// if/else, switch, return, for-range, counted for, general for on fuel, break/continue, calls of
+// whitelisted functions, conversions, len, make([]byte, const), copy, bytes.Equal,
+// binary.<order>.UintN/PutUintN, the bytes.NewReader/binary.Read idiom, panic, error returns by
+// fmt.Errorf/errors.New/constant error variables.
+//
 // usage: translate-kernels <repo> <out.v>
 package main
 
@@ -292,6 +299,9 @@ func main() {
 		out.WriteString(code)
 		out.WriteString("\n")
 	}
+	if why := commentsBalanced(out.Bytes()); why != "" {
+		fatal(token.NoPos, "internal: the generated file would not lex (%s); nothing written", why)
+	}
 	old, err := os.ReadFile(os.Args[2])
 	if err == nil && bytes.Equal(old, out.Bytes()) {
 		return
@@ -301,6 +311,38 @@ func main() {
 	}
 }
 
+// coqComment makes a text safe inside a Coq comment: Coq comments nest, so neither bracket may occur
+func coqComment(s string) string {
+	s = strings.ReplaceAll(s, "(*", "( *")
+	s = strings.ReplaceAll(s, "*)", "* )")
+	return strings.ReplaceAll(s, "\"", "'") // an unbalanced string quote inside a comment also breaks the lexer
+}
+
+// commentsBalanced checks that the Coq comments of the generated text nest correctly and are closed
+// ("" = fine): a last line of defence against text leaking out of a comment
+func commentsBalanced(b []byte) string {
+	depth := 0
+	for i := 0; i+1 < len(b); i++ {
+		switch {
+		case b[i] == '(' && b[i+1] == '*':
+			depth++
+			i++
+		case b[i] == '*' && b[i+1] == ')':
+			depth--
+			i++
+			if depth < 0 {
+				return fmt.Sprintf("comment closed twice at byte %d", i)
+			}
+		case b[i] == '"' && depth > 0:
+			return fmt.Sprintf("string quote inside a comment at byte %d", i)
+		}
+	}
+	if depth != 0 {
+		return fmt.Sprintf("%d unterminated comment(s)", depth)
+	}
+	return ""
+}
+
 const header = `(* Gen/GoKernels.v -- GENERATED by translator/Kernels.sh (harness/cmd/translate-kernels) from the Go
    source of the repository; do not edit.  One definition per whitelisted arithmetic kernel: the Go
    function body, statement by statement, with Go's integer semantics written out (Base/GoInt.v):
@@ -308,9 +350,17 @@ const header = `(* Gen/GoKernels.v -- GENERATED by translator/Kernels.sh (harnes
    to the width, go_not = bitwise complement at the width, go_index = indexing with the bounds
    check (Panic), loops as folds (go_iota = the values of the counter of a counted loop), a
    (T, error) result as an outcome (Err = a non-nil error), unbounded loops on fuel.
+   A function that writes through its receiver ( *recv = .., recv.F = .., copy(recv.F[:], ..)), through
+   a pointer parameter or into the elements of a slice parameter returns, after its declared results,
+   the final values of what it wrote.  Err k = the k-th error return of the function in source order
+   (binary.Read: 1 = io.EOF, 2 = io.ErrUnexpectedEOF); Panic k = the k-th run-time check.
    Assumptions of the transcription: int and uint are 64 bit wide; len(x) of a slice is an int that
-   does not overflow (so the counter of a loop bounded by len(x) does not wrap); a pointer receiver
-   is not nil (its integer fields read by the function become parameters). *)
+   does not overflow (so the counter of a loop bounded by len(x) does not wrap); pointer receivers
+   and pointer parameters are not nil (the fields a struct receiver's method uses become parameters);
+   b[lo:hi] is checked against len(b) where Go checks against cap(b) (an Ok result is exact, a Panic
+   may be spurious); functions of packages outside the repository that only build the value of an
+   error or of a panic (fmt.Errorf, hex.Dump, ...) return normally; package-level byte tables and
+   error variables are checked not to be assigned inside their package. *)
 From Fiano Require Import Base.Bytes Base.GoInt.
 Open Scope Z_scope.
 
